@@ -114,6 +114,10 @@ def bases():
         for path in ("", "/a", "/a/b", "/a/b.html", "/é/B~", "/a/"):
             for items in ([], ["id=1"], ["b=2", "a=1"], ["q=x", "id=3", "a"], ["a=1", "a=0", "b=é", "c=%7E"], ["k=", "k"], ["q=a b", "q=a%20b"]):
                 out.append(Base(host, path, items))
+    # items that only SOME hosts treat as irrelevant (per-domain filters of facebook / youtube): kept on any other host
+    for items in (["id=7", "_rdr"], ["v=1", "t=10", "si=abc"], ["ab_channel=x", "q=1"]):
+        out.append(Base("a.com", "/watch", items))
+        out.append(Base("blog.a.co.uk", "/p", items))
     out.append(Base("a.com", "/a", ["id=1"], "/route"))
     out.append(Base("a.com", "/a", [], "!/route"))
     return out
@@ -132,6 +136,10 @@ def shard(job):
         b = B[i]
         u = b.build()
         for kw in ({}, {"quoted": True}, {"platform_aware": True}):
+            # call history: the same raw query was seen before on hosts with their own query filters (nothing may stick to the query text)
+            if b.items:
+                for ph in ("https://m.facebook.com", "https://www.youtube.com"):
+                    norm(ph + b.path + "?" + b.sep.join(b.items), kw)
             r0 = norm(u, kw)
             if r0[0] != "ok":
                 continue
@@ -168,7 +176,8 @@ def shard(job):
     return col.partial()
 
 
-REDIRECTS = ["http://a.com/r?url=http%3A%2F%2Fb.com%2Fx%3Fid%3D1", "https://www.google.com/url?q=https://b.com/a/&sa=D", "http://a.com/?u=/local/path",
+REDIRECTS = ["a.com:8080/p?u=/x", "a.com/p?next=/x%3Fa%3D1", "//a.com/p?u=/x", "A.com/?Q=http://b.com", "a.com/p?u=//b.com/y", "http://a.com/p#x&url=http%3A%2F%2Fb.com",
+             "http://a.com/r?url=http%3A%2F%2Fb.com%2Fx%3Fid%3D1", "https://www.google.com/url?q=https://b.com/a/&sa=D", "http://a.com/?u=/local/path",
              "https://l.facebook.com/l.php?u=http%3A%2F%2Fb.com%2F%3Futm_source%3Dfb&h=AT0", "http://b.com/plain?id=1",
              "https://b-com.cdn.ampproject.org/c/s/b.com/a/amp/", "http://a.com/redirect?target=http://b.com/index.html"]
 
